@@ -631,9 +631,16 @@ func (P *Prog) paramBoundFieldD(p *ssa.Parameter, depth int) *types.Var {
 // field at every call site ("" if none).
 func (P *Prog) roleOf(v ssa.Value) string {
 	v = cv(v)
-	if _, f := loadOfField(v); f != nil {
+	if base, f := loadOfField(v); f != nil {
 		if _, isKindField := P.roles.kindFieldSet[f.Origin()]; isKindField {
 			return P.roleName(f)
+		}
+		// a field of a small options struct that is a parameter of this function (`rules.required` of
+		// `primitiveRules[T]`): the role of what every call site stores into that field of the struct it passes
+		if bf := P.structParamFieldBound(base, f); bf != nil {
+			if _, isKindField := P.roles.kindFieldSet[bf.Origin()]; isKindField {
+				return P.roleName(bf)
+			}
 		}
 		return ""
 	}
@@ -944,4 +951,114 @@ func peelDelegation(fn *ssa.Function) *ssa.Function {
 		fn = callee
 	}
 	return fn
+}
+
+// structParamFieldBound: base is a struct-typed parameter of its function (or the local it was spilled to); at every
+// static call site the argument is a struct value built in a local and filled field by field, and what is stored into
+// field f is a load of one and the same (by role) field of a schema kind: that field. Else nil.
+func (P *Prog) structParamFieldBound(base ssa.Value, f *types.Var) *types.Var {
+	var prm *ssa.Parameter
+	// (read inside a closure of the function: the captured local that holds the parameter)
+	if fv, ok := base.(*ssa.FreeVar); ok {
+		if b := freeVarBinding(fv); b != nil {
+			base = b
+		}
+	}
+	if u, ok := base.(*ssa.UnOp); ok && u.Op == token.MUL {
+		if fv, ok := u.X.(*ssa.FreeVar); ok {
+			if b := freeVarBinding(fv); b != nil {
+				base = b
+			}
+		}
+	}
+	switch x := base.(type) {
+	case *ssa.Parameter:
+		prm = x
+	case *ssa.Alloc:
+		if sts := storesTo(x); len(sts) == 1 {
+			prm, _ = sts[0].Val.(*ssa.Parameter)
+		}
+	case *ssa.UnOp:
+		if al, ok := x.X.(*ssa.Alloc); ok {
+			if sts := storesTo(al); len(sts) == 1 {
+				prm, _ = sts[0].Val.(*ssa.Parameter)
+			}
+		}
+	}
+	if prm == nil {
+		return nil
+	}
+	fn := prm.Parent()
+	idx := -1
+	for i, q := range fn.Params {
+		if q == prm {
+			idx = i
+		}
+	}
+	if idx < 0 {
+		return nil
+	}
+	var found *types.Var
+	n := 0
+	okAll := true
+	for _, caller := range P.Funcs {
+		eachInstr(caller, func(_ *ssa.BasicBlock, _ int, in ssa.Instruction) {
+			c, ok := in.(ssa.CallInstruction)
+			if !ok {
+				return
+			}
+			cal := c.Common().StaticCallee()
+			if cal == nil || originOf(cal) != originOf(fn) || idx >= len(c.Common().Args) {
+				return
+			}
+			n++
+			arg := c.Common().Args[idx]
+			var holder *ssa.Alloc
+			switch y := arg.(type) {
+			case *ssa.Alloc:
+				holder = y
+			case *ssa.UnOp:
+				holder, _ = y.X.(*ssa.Alloc)
+			}
+			if holder == nil || holder.Referrers() == nil {
+				okAll = false
+				return
+			}
+			var stored ssa.Value
+			for _, rf := range *holder.Referrers() {
+				fa, ok := rf.(*ssa.FieldAddr)
+				if !ok {
+					continue
+				}
+				if _, ff := fieldVar(fa); ff == nil || !sameField(ff, f) {
+					continue
+				}
+				for _, st := range storesTo(fa) {
+					stored = st.Val
+				}
+			}
+			if stored == nil {
+				okAll = false
+				return
+			}
+			var bf *types.Var
+			saved := substEnv
+			substEnv = nil
+			_, bf = loadOfField(cv(stored))
+			substEnv = saved
+			if bf == nil {
+				okAll = false
+				return
+			}
+			if found != nil && P.roleName(found) != P.roleName(bf) {
+				okAll = false
+				return
+			}
+			found = bf
+		})
+	}
+	if !okAll || n == 0 {
+		return nil
+	}
+	return found
 }
